@@ -199,7 +199,7 @@ theorem finished_after_iff (s : Stream) (p : Pkt) (hnf : s.isFinished = false) :
         · rintro ⟨h6, h7⟩; exact ⟨h7, Or.inl h6⟩
     · have hb2 : s.server.packetBelongs p = false := by simpa using hb2
       rw [(h3 hb hb2).1]
-      simp only [hb, hb2, Bool.false_eq_true, false_and, or_self, iff_false]
+      simp only [hb, hb2, Bool.false_eq_true, false_and]
       simp [hn1, hn2, hn3]
 
 /-! ### a stream is stored under the key of its own endpoints -/
